@@ -15,7 +15,8 @@ import (
 )
 
 var profile = gen.Profile{
-	MinSteps: 4, MaxSteps: 26, Limits: []int{1, 2, 3, 4},
+	AllowPush: true, // half of the servers are push-enabled (no pushes are made: the limit must not depend on it)
+	MinSteps:  4, MaxSteps: 26, Limits: []int{1, 2, 3, 4},
 	PNote: 0, PGate: 85, PInvalid: 4, PUnknown: 10, PBatch: 55, MaxBatch: 6,
 	PCancel: 12, PBurst: 35, PObey: 30, Builtins: true, Pins: true,
 	Outcomes:      []string{"ok", "ok", "err:-32000", "ctxerr"},
@@ -32,7 +33,8 @@ func run(t *testing.T, sc sim.Scenario) engine.Verdict {
 // wide: limits above the number of CPUs of any machine the check is likely
 // to run on, with more parked handlers than that.
 var wide = gen.Profile{
-	MinSteps: 10, MaxSteps: 30, Limits: []int{17, 18, 20, 24, 33},
+	AllowPush: true, // half of the servers are push-enabled (no pushes are made: the limit must not depend on it)
+	MinSteps:  10, MaxSteps: 30, Limits: []int{17, 18, 20, 24, 33},
 	PNote: 0, PGate: 96, PInvalid: 2, PUnknown: 4, PBatch: 75, MaxBatch: 9,
 	PCancel: 4, PBurst: 35, PObey: 30, Builtins: true, Pins: true, PRelease: 8,
 	Outcomes: []string{"ok", "err:-32000"},
@@ -43,7 +45,8 @@ func genWide(t *rapid.T) sim.Scenario { return gen.ServerScenario(t, wide) }
 
 // notes: notifications and failing handlers take and give back slots too.
 var notes = gen.Profile{
-	MinSteps: 6, MaxSteps: 28, Limits: []int{1, 2, 3, 4},
+	AllowPush: true, // half of the servers are push-enabled (no pushes are made: the limit must not depend on it)
+	MinSteps:  6, MaxSteps: 28, Limits: []int{1, 2, 3, 4},
 	PNote: 35, PGate: 60, PInvalid: 4, PUnknown: 8, PBatch: 45, MaxBatch: 5,
 	PCancel: 8, PBurst: 30, PObey: 30, Builtins: true, Pins: true, PRelease: 45,
 	Outcomes: []string{"ok", "err:-32000", "err:7", "ctxerr", "bad", "baderr"},
